@@ -169,7 +169,11 @@ def Dbl.ofBits (b : Nat) : Dbl :=
   else if ex == 0 then .fin neg mant (-1074)
   else .fin neg (mant + 2 ^ 52) ((ex : Int) - 1075)
 
-def decDigits (n : Nat) : Bytes := (Nat.toDigits 10 n).map (fun c => c.toNat)
+/-- decimal digits of `n`, most significant first (`"0"` for zero) -/
+def decDigits (n : Nat) : Bytes :=
+  if h : n < 10 then [48 + n] else decDigits (n / 10) ++ [48 + n % 10]
+termination_by n
+decreasing_by omega
 
 def pad6 (n : Nat) : Bytes :=
   let s := decDigits n
